@@ -3,6 +3,9 @@
 package circuitbreaker
 
 import (
+	"runtime"
+	"sync"
+	"sync/atomic"
 	"bufio"
 	"errors"
 	"fmt"
@@ -96,6 +99,69 @@ func TestVerifDriver(t *testing.T) {
 								changes = append(changes, stName(from)+">"+stName(to))
 							}})
 						res = "ok"
+					}
+				}
+			case "race":
+				// race <callers> <max_requests> <rounds>: per round a fresh breaker is opened by one
+				// failure, the (virtual) timeout elapses, and <callers> goroutines released together
+				// call Execute with a function that stays in flight until all have been decided.
+				// Reports the largest number of trials that were in flight at once.
+				if len(w) == 5 {
+					callers, _ := strconv.Atoi(w[2])
+					mx, _ := strconv.Atoi(w[3])
+					rounds, _ := strconv.Atoi(w[4])
+					if callers < 1 || callers > 64 || mx < 1 || rounds < 1 || rounds > 5000 {
+						break
+					}
+					worst, worstRound := 0, -1
+					for r := 0; r < rounds; r++ {
+						verifclock.Set(0)
+						b := NewCircuitBreaker(Settings{Name: "r", FailureThreshold: 1, SuccessThreshold: uint32(mx),
+							MaxRequests: uint32(mx), Interval: time.Hour, Timeout: time.Millisecond})
+						_ = b.Execute(func() error { return fmt.Errorf("boom") })
+						verifclock.Set(int64(2 * time.Millisecond))
+						var admitted int32
+						var decided sync.WaitGroup
+						var ready, goFlag int32 // spin barrier: all callers enter Execute within nanoseconds
+						hold := make(chan struct{})
+						var all sync.WaitGroup
+						decided.Add(callers)
+						for c := 0; c < callers; c++ {
+							all.Add(1)
+							go func() {
+								defer all.Done()
+								atomic.AddInt32(&ready, 1)
+								for atomic.LoadInt32(&goFlag) == 0 {
+								}
+								once := false
+								_ = b.Execute(func() error {
+									atomic.AddInt32(&admitted, 1)
+									once = true
+									decided.Done()
+									<-hold
+									return nil
+								})
+								if !once {
+									decided.Done()
+								}
+							}()
+						}
+						for atomic.LoadInt32(&ready) < int32(callers) {
+							runtime.Gosched()
+						}
+						atomic.StoreInt32(&goFlag, 1)
+						decided.Wait()
+						n := int(atomic.LoadInt32(&admitted))
+						close(hold)
+						all.Wait()
+						if n > worst {
+							worst, worstRound = n, r
+						}
+					}
+					if worst <= mx {
+						res = "within-budget"
+					} else {
+						res = fmt.Sprintf("OVER-BUDGET admitted=%d max_requests=%d round=%d", worst, mx, worstRound)
 					}
 				}
 			case "begin":
